@@ -38,6 +38,7 @@ is_6531_local (const char *start, const char *end)
 {
     int qpair = 0;
     int quote = 0;
+    int qend = 0; /* previous character closed a quoted-string */
     int ch;
     int prev = 0; /* previous index of non-ASCII character */
     utf8_decode_t u;
@@ -49,8 +50,12 @@ is_6531_local (const char *start, const char *end)
     utf8_decode_init (start, end - start, &u);
     while ((ch = utf8_decode_next (&u)) >= 0) {
         /* skip non-ASCII characters */
-        if (ch > 0x007f)
+        if (ch > 0x007f) {
+            /* a quoted-string is a whole word: only '.' may follow it */
+            if (qend)
+                return inverse(EEAV_LPART_MISPLACED_QUOTE);
             continue;
+        }
 
         /* rfc5321 does not allow any CTRL chars */
 #ifndef RFC6531_FOLLOW_RFC5322
@@ -59,6 +64,10 @@ is_6531_local (const char *start, const char *end)
 #endif
 
         if (!quote) {
+            /* a quoted-string is a whole word: only '.' may follow it */
+            if (qend && ch != '.')
+                return inverse(EEAV_LPART_MISPLACED_QUOTE);
+            qend = 0;
 #ifdef RFC6531_FOLLOW_RFC5322
             /* rfc5322 allows next CTRLs in qtext:
              *    %d1-8 / %d11 / %d12 / %d14-31 / %d127
@@ -102,7 +111,7 @@ is_6531_local (const char *start, const char *end)
             qpair = 0;
         else {
             switch (ch) {
-            case '"':   quote = 0; break;
+            case '"':   quote = 0; qend = 1; break;
             case '\\':  qpair = 1; break;
 #ifdef RFC6531_FOLLOW_RFC5322
             /* the next chars are not allowed in qtext: */
@@ -124,6 +133,7 @@ is_6531_local (const char *start, const char *end)
                     switch (ch) {
                         case '"':
                             quote = !quote;
+                            qend = 1;
                             break;
                         case '\n': case '\r': case '\t': case ' ':
                             break;
